@@ -11,7 +11,8 @@ ASSUMPTIONS = [
     "products of after-targets, module text and products at its last SUCCESS / PERSISTENCE in a real (non-dry) build",
     "edits are honest (new mtime with every write; the mtime-preserving edit of finding F4 is scoped to C02/C12)",
     "after-targets always have products in this campaign (finding F1 is scoped to C01)",
-    "a dry run reports PERSISTENCE but records nothing (fix 8d652c5), so 'quiet afterwards' is only demanded after real builds",
+    "a dry run reports PERSISTENCE but records nothing (fix 8d652c5), so 'quiet afterwards' is only demanded after real builds; in a dry run a "
+    "persist task below a task that would be executed must be announced WOULD_BE_EXECUTED, not PERSISTENCE (fix dbf5519, finding F20)",
     "observed schedule replayed in the Lean engine; theorems hold for every legal schedule",
 ]
 
@@ -69,7 +70,18 @@ def oracle(hist, records):
             present = all(x is not None for x in v.values())
             ins_present = all(x is not None for k, x in v.items() if k == "module" or k[0] == "in")
             changed = snap.get(tid) != v
-            if "persist" in t.get("marks", []) and not otherwise:
+            # dry run: a task below a task that would be executed carries the would_be_executed mark; whether its nodes will
+            # still be changed once the ancestors really ran cannot be known, so it must be announced WOULD_BE_EXECUTED and
+            # never PERSISTENCE (repair of F20)
+            below_wbe = bool(cfg.get("dry")) and any(out.get(a) == "WOULD_BE_EXECUTED" for a in anc)
+            if "persist" in t.get("marks", []) and not otherwise and below_wbe:
+                STATS["dry-below-would-be-executed"] += 1
+                if tid in ex:
+                    bad.append(("dry", f"persist task {tid} was executed in a dry run", None))
+                if out.get(tid) != "WOULD_BE_EXECUTED":
+                    bad.append(("dry", f"dry run: persist task {tid} depends on a task that would be executed but is announced {out.get(tid)} "
+                                       f"instead of WOULD_BE_EXECUTED", None))
+            elif "persist" in t.get("marks", []) and not otherwise:
                 if present and changed:
                     STATS["persist-antecedent" + ("-force" if cfg.get("force") else "-dry" if cfg.get("dry") else "")] += 1
                     if tid in ex:
@@ -109,7 +121,7 @@ def oracle(hist, records):
 
 # ------------------------------------------------------------------------------------------------
 
-CFGS = [{}, {}, {}, {"force": True}, {"force": True}, {"dry": True}, {"k": "task_t00x"}, {"k": "task_t01x or task_t02x"}, {"m": "persist"},
+CFGS = [{}, {}, {}, {"force": True}, {"force": True}, {"dry": True}, {"force": True, "dry": True}, {"k": "task_t00x"}, {"k": "task_t01x or task_t02x"}, {"m": "persist"},
         {"m": "not persist"}, {"m": "markone"}, {"k": "task_t01x", "m": "persist or markone"}]
 
 
@@ -145,7 +157,7 @@ def small_scope(ctx):
         "versions": {"0": 0, "1": 0}, "inputs": {"100": 7}}
     edits = [[["write", 100, 8]], [["bump", 1]], [["write", 111, 4242]], [["delete", 112]], [["write", 110, 4343]], [["delete", 110]],
              [["write", 113, 4444]], [["touch", 111]], [["delete", 111], ["write", 100, 9]], []]
-    cfgs = [{}, {"force": True}, {"dry": True}, {"k": "task_t00x"}, {"m": "persist"}]
+    cfgs = [{}, {"force": True}, {"dry": True}, {"force": True, "dry": True}, {"k": "task_t00x"}, {"m": "persist"}]
     extra = [(), ((0, "skip"),), ((0, "early"),)]
     subsets = [(1,), (0, 1), (1, 2), (0, 1, 2), (2,)]
     if not ctx.thorough and ctx.budget == 1.0:
@@ -168,7 +180,9 @@ def small_scope(ctx):
                         else:
                             steps.append(["setbeh", tid, "early"])
                     steps += copy.deepcopy(ed)
-                    steps += [["build", dict(cfg)], ["build", {}]]
+                    # a dry run is followed by its real counterpart (what it announced), everything else by a plain build
+                    follow = {k: v for k, v in cfg.items() if k != "dry"} if cfg.get("dry") else {}
+                    steps += [["build", dict(cfg)], ["build", follow]]
                     hs.append({"tag": "small", "spec": spec, "steps": steps})
     return hs
 
